@@ -47,6 +47,7 @@ type ScnPhCase struct {
 	Mode  string `json:"mode"`
 	Name  string `json:"name"`
 	File  string `json:"file"`
+	Pad   string `json:"pad,omitempty"` // padding inside the braces; Name / File / Pad are drawn as in TestPlaceholders (names_test.go)
 	From  int    `json:"from"`
 	To    int    `json:"to"`
 	Text  string `json:"text"`
@@ -55,7 +56,7 @@ type ScnPhCase struct {
 }
 
 func (c ScnPhCase) ph() PhCase {
-	return PhCase{Src: c.Src, Mode: c.Mode, Name: c.Name, File: c.File, Decoy: c.Decoy}
+	return PhCase{Src: c.Src, Mode: c.Mode, Name: c.Name, File: c.File, Pad: c.Pad, Decoy: c.Decoy}
 }
 
 // scnKind derives the kind of the scalar at a path from the documented layout of scenario files.
@@ -369,8 +370,9 @@ func genScnPh(r *vf.Run) func(t *rapid.T) ScnPhCase {
 		}
 		c := ScnPhCase{Doc: cg.Encode(doc), Path: strings.Join(p.path, "/"), Kind: kind}
 		c.Src = rapid.SampledFrom([]string{"env", "property"}).Draw(t, "src")
-		c.Name = rapid.SampledFrom([]string{"VERIF_C17_S", "VERIF_C17_body", "verif_c17_scn", "S17"}).Draw(t, "name")
-		c.File = rapid.SampledFrom([]string{"scn.properties", "s"}).Draw(t, "file")
+		c.Name = drawName(t, []string{"VERIF_C17_S", "VERIF_C17_body", "verif_c17_scn", "S17"}, "name")
+		c.File = drawPropFile(t, []string{"scn.properties", "s"}, "file")
+		c.Pad = drawPad(t)
 		modes := []string{pWhole, pWhole, pWhole, pWhole, pWhole, pWhole}
 		if kind != skInt && kind != skBool && len(text) > 0 {
 			modes = append(modes, pEmbedded, pEmbedded, pEmbedded)
@@ -570,6 +572,17 @@ func checkScnPh(c ScnPhCase, o *vf.Obs) error {
 	o.Class("src:"+c.Src, "mode:"+c.Mode, "kind:"+kind, "section:"+top, "field:"+fieldLabel(path), decoyClass(c.Name, c.Decoy))
 	o.ClassIf(mustReject && c.Mode != pInvalid, "missing:"+c.Mode)
 	o.ClassIf(!mustReject, "resolves:"+kind)
+	how, file := "resolves", c.File
+	switch {
+	case c.Mode == pInvalid:
+		how = "invalid_text"
+	case mustReject:
+		how = "names_nothing"
+	}
+	if c.Src == "env" {
+		file = ""
+	}
+	spellingClasses(o, c.Src, c.Name, file, c.Pad, how, kind != skString)
 	if c.Decoy != "" && c.Decoy != c.Name {
 		o.ClassIf(mustReject && c.Mode != pInvalid, "missing_with_"+decoyClass(c.Name, c.Decoy)+":"+c.Src)
 		o.Note("decoy", c.Decoy+"="+decoyValue)
